@@ -38,6 +38,7 @@ func c09prop(ev *evid.Rec) func(rt *rapid.T) {
 		target := rapid.SampledFrom([]string{"root", "Uploads"}).Draw(rt, "target")
 		preexisting := rapid.IntRange(0, 7).Draw(rt, "preexisting") == 0
 		ncuts := rapid.IntRange(0, 4).Draw(rt, "ncuts")
+		own := rapid.IntRange(0, 3).Draw(rt, "ownroot") == 0
 		// how the client's bytes on the transfer connection are cut into segments ("" = one Write per message)
 		seg := rapid.SampledFrom([]string{"", "", "random", "header", "bytes"}).Draw(rt, "segmentation")
 		segSeed := rapid.Uint64().Draw(rt, "segseed")
@@ -56,9 +57,12 @@ func c09prop(ev *evid.Rec) func(rt *rapid.T) {
 				}
 			}
 			dir := w.FileRoot
+			if own {
+				dir = ownRoot(rt, w, acct("admin", "Admin", "adminpw", allAccess))
+			}
 			var path []byte
 			if target == "Uploads" {
-				dir = filepath.Join(w.FileRoot, "Uploads")
+				dir = filepath.Join(dir, "Uploads")
 				must(os.MkdirAll(dir, 0o755))
 				path = p1("Uploads")
 			}
@@ -252,7 +256,7 @@ func c09prop(ev *evid.Rec) func(rt *rapid.T) {
 				rt.Fatalf("download of the uploaded file returns different bytes (cuts %v)", cutLog)
 			}
 		})
-		ev.Case(evid.Hash(name, content, forks, fmt.Sprint(cutLog), preserve, target, preexisting, seg, segSeed), ntCase, "segmentation:"+seg, fmt.Sprintf("cuts:%d", len(cutLog)), fmt.Sprintf("forks:%d", forks), sizeClass(size), fmt.Sprintf("preexisting:%v", preexisting))
+		ev.Case(evid.Hash(name, content, forks, fmt.Sprint(cutLog), preserve, target, preexisting, seg, segSeed, own), ntCase, "segmentation:"+seg, fmt.Sprintf("own-root:%v", own), fmt.Sprintf("cuts:%d", len(cutLog)), fmt.Sprintf("forks:%d", forks), sizeClass(size), fmt.Sprintf("preexisting:%v", preexisting))
 		if ntCase && ev.WantSample() {
 			ev.Sample(map[string]any{"name": name, "size": size, "forks": forks, "preserve_forks": preserve, "target": target, "cuts(attempt@offset/stream)": cutLog})
 		}
